@@ -1,7 +1,67 @@
-(* C31 placeholder while the pipeline is brought up *)
+(* C31: HPACK decoding conforms to RFC 7541.  Property theorems only.
+   The decoder model is the transcription of hpack.go (Decoder.Write/Close, parseHeaderFieldRepr, readVarInt,
+   readString, dynamicTable) after the /repo fix "hpack huffmanDecode rejects EOS / over-long or non-EOS padding";
+   rfc_decode / rfc_repr / rfc_int / rfc_string / rfc_huff_decode are the RFC 7541 reference (specification). *)
 From Coq Require Import List ZArith Bool.
-From Bfe Require Import lib.Val model.Huffman model.Hpack run.RunC31.
+From Bfe Require Import lib.Val lib.Bytes gen.HpackTables model.Huffman model.Hpack run.RunC31
+  proofs.HuffmanProofs proofs.HuffmanTrieProofs proofs.HpackProofs proofs.HpackRfcProofs proofs.HpackC31Proofs.
+Import ListNotations.
 Open Scope Z_scope.
-Example C31_tables : table_wf = true.
-Proof. vm_compute. reflexivity. Qed.
-Print Assumptions C31_tables.
+
+(* RFC 7541 5.2, for EVERY byte string v: the reference Huffman decoder returns s exactly when the bits of v are
+   the codes of s followed by fewer than 8 padding bits that are all ones.  Hence more than 7 bits of padding,
+   padding that is not a prefix of EOS, an encoded EOS and an incomplete code are all rejected. *)
+Theorem C31_huffman_accepts_exactly : forall v s, rfc_huff_decode v = Some s <-> huff_valid (bytes_bits v) s.
+Proof. exact rfc_huff_decode_iff. Qed.
+Print Assumptions C31_huffman_accepts_exactly.
+
+(* readVarInt refines the RFC 5.1 integer (at most 9 continuation octets): same value and rest, or both fail. *)
+Theorem C31_varint_refines_rfc : forall n p, 0 <= n -> wf_bytes p = true -> rd_rfc (read_varint n p) (rfc_int n p).
+Proof. exact read_varint_rfc. Qed.
+Print Assumptions C31_varint_refines_rfc.
+
+(* HEADLINE (whole-block delivery).  For every table size mx >= 0 and EVERY byte string p, the decoder model
+   (NewDecoder(mx); Write(p); Close()) with the RFC Huffman decoder never reaches a panic site (nil node,
+   eviction from an empty table) and: if the RFC reference decoder accepts p, the model reports no error, emitted
+   exactly the reference fields (names, values, never-index flags) and holds the same dynamic table (entries,
+   maximum); if the reference rejects p (index 0 or beyond the tables, size update above the allowed maximum,
+   integer longer than 9 continuation octets, bad Huffman padding / EOS, truncated block) the model reports an error. *)
+Theorem C31_decoder_refines_rfc_partial : forall mx p, 0 <= mx -> wf_bytes p = true ->
+  let '(d, fs, st) := dec_run huff_decode_spec (new_decoder mx) [p] [] in
+  st <> ST_PANIC /\
+  match rfc_decode mx p with
+  | Some (t, want) => st = 0 /\ fs = want /\ trel (ddt d) t
+  | None => st <> 0
+  end.
+Proof. exact decoder_refines_rfc_oneshot. Qed.
+Print Assumptions C31_decoder_refines_rfc_partial.
+(* Full statement not proved (see level_note):
+     forall chunks, the same for dec_run huff_decode (new_decoder mx) chunks [] against rfc_decode mx (concat chunks)
+   i.e. (1) arbitrary splitting across Write calls (C31_incremental) and (2) the byte-trie Huffman decoder in place
+   of the bit-level one.  Both are tied by the correspondence check (random splits, crafted Huffman tails). *)
+
+(* the same through the executable predicate that the harness evaluates on the implementation's observation *)
+Theorem C31_prop_of_model : forall mx p, 0 <= mx -> wf_bytes p = true ->
+  prop_C31 (VL [VZ mx; VL [VB p]]) (observe huff_decode_spec mx [p]) = true.
+Proof. exact prop_C31_of_model_oneshot. Qed.
+Print Assumptions C31_prop_of_model.
+
+(* The 256-ary trie built by the transcription of addDecoderNode agrees with the bit-level code on every
+   (internal node, next byte) pair - 15 x 256 cases - and on 1280 encoded strings covering every symbol. *)
+Theorem C31_trie_step_agrees : trie_step_agrees = true /\ trie_symbols_agree = true.
+Proof. exact (conj trie_step_agrees_true trie_symbols_agree_true). Qed.
+Print Assumptions C31_trie_step_agrees.
+
+(* Non-vacuity: the pre-fix panic witness (literal field, value = Huffman '0' '1' followed by EOS) is now an
+   error in the trie model and in the reference; a valid block (":method: GET", then a literal with incremental
+   indexing using a Huffman value with 3 bits of padding) is accepted with two fields. *)
+Example C31_witness_rejected :
+  run_C31 (VL [VZ 4096; VL [VB [0;0;133;0;127;255;255;255]]]) = VL [VL []; VZ 4; VZ 0; VZ 4096; VZ 0]
+  /\ rfc_decode 4096 [0;0;133;0;127;255;255;255] = None.
+Proof. exact (conj eq_refl eq_refl). Qed.
+Example C31_valid_accepted :
+  match rfc_decode 4096 [130; 64; 1; 120; 129; 7] with
+  | Some (t, fs) => length fs = 2%nat /\ length (rents t) = 1%nat
+  | None => False
+  end.
+Proof. exact (conj eq_refl eq_refl). Qed.
